@@ -356,7 +356,8 @@ fn run_wal_segment(b: &[u8]) -> Dec {
     }
 }
 
-pub fn targets() -> Vec<Target> {
+/// Codecs and byte-level readers (C12 and C13).
+pub fn codec_targets() -> Vec<Target> {
     let (scene_d, scene_c, scene_h) = scene_seeds();
     let abi_seeds: Vec<Vec<u8>> = {
         let mut v = Vec::new();
@@ -444,5 +445,12 @@ pub fn targets() -> Vec<Target> {
     t.push(Target { name: "wal.braid-shell-retention", law_b: true, run: wal_record!(cw::BraidShellRetentionRecord), alloc_cap: 0, seeds: vec![
         cw::BraidShellRetentionRecord { topology_intent_id: h(1), braid_id: h(2), shell_digest: h(3), material_digest: h(4), basis_digest: h(5), outcome_kind: cw::TopologyImportOutcomeKind::Plural, retention_posture_digest: h(6), witness_digest: h(7), idempotency_key_digest: opt }.to_payload_bytes(),
     ]});
+    t
+}
+
+/// Every byte-level entry point (C13, fuzz target): the codecs plus the host boundary.
+pub fn targets() -> Vec<Target> {
+    let mut t = codec_targets();
+    t.extend(crate::hosttargets::host_targets());
     t
 }
